@@ -3,7 +3,7 @@
    PROVED for the generated step list: C19_generated_ids_distinct).  `steps`, `orm_schema`,
    `base_schema`, `orm_gaps`, ... are regenerated from /repo on every run (Gen.v). *)
 From Coq Require Import List String Bool.
-From PAFC19 Require Import Syntax Gen Model Proofs Proofs2 Proofs3.
+From PAFC19 Require Import Syntax Gen Model Proofs Proofs2 Proofs3 Proofs4.
 Import ListNotations.
 Open Scope bool_scope.
 Open Scope list_scope.
@@ -90,6 +90,35 @@ Theorem C19_fixpoint_partial : forall (md5 : string -> string) (orm : schema) (s
     /\ exists d2, snd (run_history md5 orm ss (File d1) h) = File d2 /\ sr d2 = sr d1.
 Proof. exact commit_then_fixpoint. Qed.
 
+(* ---- the model with the proposed repairs (Model.*_v; check_case uses the variant read off the code) ---- *)
+
+(* variant_none IS the model all theorems above are about *)
+Theorem C19_variant_none_is_pinned_model : forall (md5 : string -> string) (orm : schema) (ss : list step) (h : list (list op)) (f : file),
+  run_history_v md5 variant_none orm ss f h = run_history md5 orm ss f h.
+Proof. exact run_history_v_none. Qed.
+
+(* FULL fixed point for a variant that commits in migrate and inserts the missing revision row: after the
+   first session on ANY file (any revision-table state, commit or no commit; a new file if new files are
+   stamped) the file is stamped current with the schema the session saw, and every further session
+   executes nothing and leaves schema and revision alone *)
+Theorem C19_fixed_fixpoint : forall (md5 : string -> string) (v : variant), v_commit v = true -> v_insert v = true ->
+  forall (orm : schema) (ss : list step) (f : file) (ops : list op) (h : list (list op)),
+  ids_distinct md5 ss -> revs_distinct md5 ss -> ss <> [] -> (f = NoFile -> v_stamp_new v = true) ->
+  exists d1, snd (run_session_v md5 v orm ss f ops) = File d1
+    /\ d_rev d1 = RRow (Some (rev_id md5 ss))
+    /\ d_schema d1 = d_schema (s_open (fst (run_session_v md5 v orm ss f ops)))
+    /\ Forall (fun o => s_trace o = [ESelectRev true] /\ sr (s_open o) = sr d1 /\ sr (s_end o) = sr d1 /\ sr (s_disk o) = sr d1)
+              (fst (run_history_v md5 v orm ss (File d1) h))
+    /\ exists d2, snd (run_history_v md5 v orm ss (File d1) h) = File d2 /\ sr d2 = sr d1.
+Proof. exact fixed_fixpoint. Qed.
+
+Theorem C19_fixed_applies_missing_once : forall (md5 : string -> string) (v : variant), v_commit v = true -> v_insert v = true ->
+  forall (ss : list step) (k : nat) (c : conn),
+  ids_distinct md5 ss -> revs_distinct md5 ss -> 1 <= k < List.length ss ->
+  d_rev (cur c) = RRow (Some (rev_id md5 (firstn k ss))) ->
+  stmts_of (snd (migrate_v md5 v ss c)) = map fst (List.concat (skipn k ss)).
+Proof. exact migrate_v_prefix. Qed.
+
 (* ---- every earlier revision reaches the current schema (generated steps; finite family) ---- *)
 
 Theorem C19_reaches_current_stamped : forall k : nat, 1 <= k <= List.length steps ->
@@ -98,13 +127,21 @@ Theorem C19_reaches_current_stamped : forall k : nat, 1 <= k <= List.length step
   /\ ok_stmts_of (snd (opened (stamped_db base_schema k))) = raw_stmts (skipn k steps).
 Proof. exact reaches_current_stamped. Qed.
 
-(* no stamp (no revision table / empty table / NULL row) at any EARLIER schema: every statement is
+(* no stamp (no revision table / empty table / NULL row) at a schema below exact_upto: every statement is
    attempted, exactly those of the missing steps take effect, the session sees the current schema *)
-Theorem C19_reaches_current_unstamped : forall (k : nat) (r : rev), k < List.length steps -> unstamped r ->
+Theorem C19_reaches_current_unstamped : forall (k : nat) (r : rev), k < exact_upto -> k <= List.length steps -> unstamped r ->
   d_schema (cur (fst (opened (unstamped_db base_schema k r)))) = current_schema base_schema
   /\ ok_stmts_of (snd (opened (unstamped_db base_schema k r))) = raw_stmts (skipn k steps)
   /\ stmts_of (snd (opened (unstamped_db base_schema k r))) = raw_stmts steps.
 Proof. exact reaches_current_unstamped. Qed.
+
+(* ... and the bound is sharp: at revision exact_upto (generated; on the pinned tree = the current revision)
+   a statement of an already applied step takes effect again *)
+Theorem C19_reaches_current_unstamped_refuted :
+  Nat.leb exact_upto (List.length steps) = true ->
+  negb (list_eqb String.eqb (ok_stmts_of (snd (opened (unstamped_db base_schema exact_upto RNoTable))))
+                            (raw_stmts (skipn exact_upto steps))) = true.
+Proof. exact exact_upto_sharp. Qed.
 
 (* no stamp at the CURRENT schema (every file made by create_all): "changes nothing" is refuted ... *)
 Theorem C19_unstamped_current_unchanged_refuted :
@@ -159,3 +196,4 @@ Print Assumptions C19_fixpoint_partial.
 Print Assumptions C19_empty_table_never_stamped.
 Print Assumptions C19_reaches_current_unstamped.
 Print Assumptions C19_fixpoint_refuted.
+Print Assumptions C19_fixed_fixpoint.
